@@ -27,6 +27,8 @@ pub struct Lifecycle {
     pub prop: &'static str,
     /// percentage of runs that use a leaf-spilling archive
     pub huge_pct: u64,
+    /// percentage of runs whose root directory is steered to the edge of the 16 KiB budget
+    pub window_pct: u64,
 }
 
 pub fn draw_ic(rng: &mut Rng, huge: bool) -> u8 {
@@ -46,8 +48,8 @@ impl Scenario for Lifecycle {
         "seeded lifecycle runs (archive × codec × sync/async writer and reader × transfer/pending policies); distinct = distinct serialized cases; non-trivial = at least one tile and a non-plain schedule on writer or reader disk".into()
     }
     fn generate(&self, rng: &mut Rng, _tier: Tier, _run: u64) -> Value {
-        let size = draw_size(rng, self.huge_pct);
-        let ic = draw_ic(rng, size == SizeClass::Huge);
+        let size = if rng.chance(self.window_pct) { SizeClass::Window } else { draw_size(rng, self.huge_pct) };
+        let ic = draw_ic(rng, size == SizeClass::Huge || size == SizeClass::Window);
         let a = draw_archive(rng, size, ic);
         let wface = Face::draw(rng);
         let rface = Face::draw(rng);
@@ -233,6 +235,9 @@ fn check_valid(c: &LifeCase, model: &Model, image: &[u8], ctx: &mut Ctx) -> V<()
     };
     if v.walk.max_depth > 0 {
         ctx.bump("probe_leaf_spill_archives", 1);
+    }
+    if (16_000..=16_257).contains(&v.header.root_length) {
+        ctx.bump("probe_root_within_257_bytes_of_budget", 1);
     }
     ensure!(v.header.ic == c.a.set.ic, "C02:declared-codec", "header declares internal compression {} but {} was requested", v.header.ic, c.a.set.ic);
     // the directories address exactly the added ids
